@@ -61,7 +61,18 @@ def m_apply(cols, method, limit):
     n = len(cols[0]) if cols else 0
     keep = list(range(n))
     if isinstance(method, (int, float)) and not isinstance(method, bool):
-        return [[method if isn(v) else v for v in c] for c in cols], keep
+        if limit is None:
+            return [[method if isn(v) else v for v in c] for c in cols], keep
+        out = []
+        for c in cols:        # a constant with a limit takes the first `limit` NaN of each column (pandas' rule for value fills)
+            left, cc = limit, []
+            for v in c:
+                if isn(v) and left > 0:
+                    cc.append(method); left -= 1
+                else:
+                    cc.append(v)
+            out.append(cc)
+        return out, keep
     if method == 'ffill':
         return [m_ffill(c, limit) for c in cols], keep
     if method == 'bfill':
@@ -208,6 +219,7 @@ def run_case(case, ctx):
 
 SINGLE = ['ffill', 'bfill', 0.0, 7.5, 'nona', 'fnna', 'ffill_na', 'ffill_0']
 LISTS = [['fnna', 'ffill_na'], ['nona', 'ffill_0'], ['fnna', 'ffill_0'], ['nona', 'ffill_na'], ['ffill', 'ffill'], ['bfill', 'bfill'], ['ffill', 'bfill', 'bfill'], ['ffill', 'ffill', 'ffill'], ['ffill', 'bfill'], ['bfill', 'ffill'], ['ffill', 0.0], ['fnna', 'ffill'], ['nona'], ['ffill', 'nona'], ['ffill_na', 'bfill'], ['bfill', 0.0], ['fnna', 'bfill', 'ffill'],
+         [0.0, 'ffill'], [0.0, 'bfill'], [7.5, 'ffill', 'bfill'],
          ['ffill_0', 0.0], ['ffill_na', 7.5], ['ffill_0', 7.5], ['ffill_na', 0.0, 'ffill'], ['ffill_na', 0.0], ['bfill', 'ffill_0', 7.5]]
 
 
@@ -252,7 +264,7 @@ def gen_random(rng):
         method = rng.choice(SINGLE)
     limit = rng.choice([None, None, 1, 2, 3])
     intidx = rng.choice([3, 100, -2]) if (kind in ('series', 'frame') and rng.random() < 0.2) else None
-    if any(isinstance(m, float) for m in (method if isinstance(method, list) else [method])):
+    if any(isinstance(m, float) for m in (method if isinstance(method, list) else [method])) and not (isinstance(method, list) and method in ([0.0, 'ffill'], [0.0, 'bfill'], [7.5, 'ffill', 'bfill']) and kind in ('series', 'arr1')):
         limit = None
     case = {'kind': kind, 'cols': cols, 'method': method, 'limit': limit, 'positional': rng.random() < 0.2}
     if intidx is not None:
